@@ -157,6 +157,55 @@ Proof.
     rewrite <- ?(Ha E1), <- ?(Hb E2); reflexivity.
 Qed.
 
+(* a corrected block B: only its key bits matter *)
+Definition set_gb (b : Z) (g : group) : group := mkgroup (ga g) b (gc g) (gd g) (ea g) (eb g) (ec g) (ed g).
+
+Ltac Zify.zify_post_hook ::= Z.div_mod_to_equations.
+Lemma b_key_facts b b' : 0 <= b < 65536 -> 0 <= b' < 65536 -> b_key b = b_key b' ->
+  b_group b = b_group b' /\ b_ver b = b_ver b'
+  /\ (b_group b = 0 -> b mod 4 = b' mod 4)
+  /\ (b_group b = 2 -> b mod 16 = b' mod 16 /\ b_rtflag b = b_rtflag b')
+  /\ (b_group b = 10 -> b_ver b = 0 -> b mod 2 = b' mod 2).
+Proof.
+  intros Hb Hb' K. unfold b_key in K.
+  assert (T : b / 2048 = b' / 2048).
+  { destruct (b_group b =? 0), (b_group b =? 2), ((b_group b =? 10) && (b_ver b =? 0)),
+             (b_group b' =? 0), (b_group b' =? 2), ((b_group b' =? 10) && (b_ver b' =? 0)); lia. }
+  assert (G : b_group b = b_group b') by (unfold b_group; lia).
+  assert (V : b_ver b = b_ver b') by (unfold b_ver; lia).
+  rewrite <- G, <- V, T in K.
+  split; [exact G|]. split; [exact V|]. unfold b_rtflag.
+  split; [|split].
+  - intros E. rewrite E in K. cbn [Z.eqb] in K. lia.
+  - intros E. rewrite E in K. cbn [Z.eqb Pos.eqb] in K. lia.
+  - intros E E2. rewrite E, E2 in K. cbn [Z.eqb Pos.eqb andb] in K. lia.
+Qed.
+
+Lemma dispatch_key g b' s : wf_group g -> 0 <= b' < 65536 -> eb g <> 0 -> b_key (gb g) = b_key b' ->
+  dispatch conv lut g s = dispatch conv lut (set_gb b' g) s.
+Proof.
+  intros Hwf Hb' He K. pose proof Hwf as [_ [Hb _]]. unfold blk_ok in Hb.
+  destruct (b_key_facts (gb g) b' Hb Hb' K) as [G [V [K0 [K2 K10]]]].
+  assert (E0 : (eb g =? 0) = false) by (apply Z.eqb_neq; exact He).
+  unfold dispatch. cbv zeta. cbn [gb set_gb].
+  rewrite (get_group_spec _ Hb), (get_flag_spec _ Hb), (get_group_spec _ Hb'), (get_flag_spec _ Hb'), <- G, <- V.
+  destruct (b_group (gb g) =? 0) eqn:G0.
+  { unfold group0_parse, group0a_parse. cbn [gb gc gd ea eb ec ed set_gb]. rewrite E0. cbn [andb when].
+    rewrite (get_ps_pos_spec _ Hb), (get_ps_pos_spec _ Hb'), (K0 ltac:(lia)). reflexivity. }
+  destruct (b_group (gb g) =? 1) eqn:G1.
+  { unfold group1_parse. cbn [gb gc gd ea eb ec ed set_gb]. rewrite E0, !andb_false_r. reflexivity. }
+  destruct (b_group (gb g) =? 2) eqn:G2.
+  { destruct (K2 ltac:(lia)) as [P F].
+    unfold group2_parse. cbn [gb gc gd ea eb ec ed set_gb].
+    rewrite (get_rt_flag_spec _ Hb), (get_rt_flag_spec _ Hb'), (get_rt_pos_spec _ Hb), (get_rt_pos_spec _ Hb'), P, F. reflexivity. }
+  destruct (b_group (gb g) =? 4) eqn:G4.
+  { unfold group4_parse. cbn [gb gc gd ea eb ec ed set_gb]. rewrite E0, !andb_false_r. reflexivity. }
+  destruct (b_group (gb g) =? 10) eqn:G10; [|reflexivity].
+  unfold group10_parse. cbn [gb gc gd ea eb ec ed set_gb].
+  destruct (b_ver (gb g) =? 0) eqn:V0; [|reflexivity].
+  rewrite (get_ptyn_pos_spec _ Hb), (get_ptyn_pos_spec _ Hb'), (K10 ltac:(lia) ltac:(lia)). reflexivity.
+Qed.
+
 Theorem noninterference g g' s : Inv conv s -> wf_group g -> wf_group g' ->
   dontcare_equiv (snap_of s) g g' = true -> process conv lut g s = process conv lut g' s.
 Proof.
@@ -175,7 +224,7 @@ Proof.
     - intros E0. rewrite E0 in HA. cbn in HA. apply Z.eqb_eq in HA. exact HA.
     - intros E0. rewrite !used_b_snap in HB. unfold usedB in HB. rewrite E0 in HB. cbn [Z.eqb orb] in HB.
       apply andb_true_iff in HB. destruct HB as [HB _]. apply andb_true_iff in HB. destruct HB as [HB _].
-      apply Z.eqb_eq in HB. exact HB. }
+      unfold b_equiv in HB. cbn [Z.eqb] in HB. apply Z.eqb_eq in HB. exact HB. }
   unfold andthen. rewrite <- Hgp.
   pose proof (keeps_group_parse g s) as K. pose proof (corr_of_P_set _ _ K) as Kc.
   destruct (group_parse_frame conv g s I) as [I1 _].
@@ -184,12 +233,29 @@ Proof.
   { rewrite !used_b_snap in HB.
     destruct (usedB s (eb g) (gb g) || usedB s (eb g) (gb g')) eqn:U.
     - apply andb_true_iff in HB. destruct HB as [HB HD]. apply andb_true_iff in HB. destruct HB as [HB HC].
-      apply Z.eqb_eq in HB.
-      apply (dispatch_same_b g g' (corr s) Hwf Hwf' HB Eeb Eec Eed); [| |exact Kc].
-      + intros Hu. unfold used_c in HC. rewrite !cfg_corr_snap in HC. cbv zeta in Hu. rewrite Hu in HC.
-        cbn [negb orb] in HC. apply Z.eqb_eq in HC. exact HC.
-      + intros Hu. unfold used_d in HD. rewrite !cfg_corr_snap in HD. cbv zeta in Hu. rewrite Hu in HD.
-        cbn [negb orb] in HD. apply Z.eqb_eq in HD. exact HD.
+      unfold b_equiv in HB.
+      (* first replace block B of g by that of g' (only its key bits matter when it is corrected) *)
+      assert (Hk : dispatch conv lut g s1 = dispatch conv lut (set_gb (gb g') g) s1
+                   /\ (eb g <> 0 -> b_key (gb g) = b_key (gb g'))).
+      { destruct (Z.eqb_spec (eb g) 0) as [E0|E0].
+        - apply Z.eqb_eq in HB. split; [|contradiction]. unfold set_gb. rewrite <- HB. destruct g; reflexivity.
+        - apply Z.eqb_eq in HB. split; [|intros _; exact HB].
+          apply dispatch_key; [exact Hwf|destruct Hwf' as [_ [Hb' _]]; exact Hb'|exact E0|exact HB]. }
+      destruct Hk as [Hk Hkey]. rewrite Hk.
+      assert (Wg : wf_group (set_gb (gb g') g)).
+      { destruct Hwf as [A [B [C [D [E [F [G H']]]]]]]. destruct Hwf' as [_ [B' _]]. unfold set_gb, wf_group. cbn. tauto. }
+      (* the conditions "block C / D is read" are the same for both blocks B *)
+      assert (Same : b_group (gb g) = b_group (gb g') /\ b_ver (gb g) = b_ver (gb g')).
+      { destruct (Z.eqb_spec (eb g) 0) as [E0|E0].
+        - apply Z.eqb_eq in HB. rewrite HB. split; reflexivity.
+        - destruct Hwf as [_ [Hb _]]. destruct Hwf' as [_ [Hb' _]].
+          destruct (b_key_facts (gb g) (gb g') Hb Hb' (Hkey E0)) as [G [V _]]. split; assumption. }
+      destruct Same as [SG SV].
+      apply (dispatch_same_b (set_gb (gb g') g) g' (corr s) Wg Hwf' eq_refl Eeb Eec Eed); [| |exact Kc].
+      + intros Hu. unfold used_c in HC. rewrite !cfg_corr_snap in HC. cbv zeta in Hu. cbn [gb gc gd ea eb ec ed set_gb] in Hu.
+        rewrite <- SG, <- SV in Hu. rewrite Hu in HC. cbn [negb orb] in HC. apply Z.eqb_eq in HC. exact HC.
+      + intros Hu. unfold used_d in HD. rewrite !cfg_corr_snap in HD. cbv zeta in Hu. cbn [gb gc gd ea eb ec ed set_gb] in Hu.
+        rewrite <- SG, <- SV in Hu. rewrite Hu in HD. cbn [negb orb] in HD. apply Z.eqb_eq in HD. exact HD.
     - apply orb_false_iff in U. destruct U as [U1 U2].
       rewrite (dispatch_unused g s1 Hwf I1) by (unfold usedB in *; rewrite Kc; exact U1).
       rewrite (dispatch_unused g' s1 Hwf' I1) by (unfold usedB in *; rewrite Kc, <- Eeb; exact U2). reflexivity. }
